@@ -5,6 +5,17 @@ here = os.path.dirname(os.path.abspath(__file__))
 sys.path.insert(0, here)
 from props import PROPS
 ALL = ["C%02d" % i for i in range(1, 21)]
+# additions of the sixth session to what a check enumerates (appended to the rule text of engine/props.py)
+ADDENDA = {
+    "C01": "; + layouts with video segments of four fragments (sample duration in every tfhd / in the init segment's trex only): every fragment's distance to the segment start as in the VoD file",
+    "C07": "; + DRM init segments of a second asset with the same representation ids; + the alphabet served once more in reverse order by a child process of the same binary (each request on a server of its own) and compared with this process's answers (state outside the server instance)",
+    "C08": "; + 7 Annex I key lists x 16 query strings (keys more often, less often, in another order, without value) x 4 endpoints x 2 MPD types; + receiver uploads x 26 Content-Length header values (absent, 0, too small, too large, negative, not a number, 2^60..2^63-1, beyond int64) x {init, media} x {parsing, raw mode} (values between 2^31 and 2^47 left out: they would take the machine's memory where the handler allocates what the field says)",
+    "C10": "; + two CPIX packages that share the one-key package's key id (another explicitIV; the cenc scheme); + assets with all / only the audio / only the video track pre-encrypted",
+    "C13": "; + the same stream walked again under snr_5 and snr_1 on the same server instance (testpic_2s, testpic_8s)",
+    "C15": "; + every cache file as the real record with a damaged segment table (empty, one entry missing in the middle, two entries swapped, an entry that ends before it starts)",
+    "C17": "; thorough: breadth-first search to depth 6 (VERIF_C17_DEPTH overrides)",
+    "C20": "; + scenarios link-local-zone and link-local-zone-whitelisted (RemoteAddr [fe80::1%eth0]:port, forwarded-for with a zone, fe80::/10 white-listed)",
+}
 checks = []
 for pid in ALL:
     if pid not in PROPS or PROPS[pid].get("disabled"):
@@ -17,7 +28,7 @@ for pid in ALL:
         "evidence_file": "evidence/%s.json" % pid,
         "replay_cmd_template": "bin/vcheck replay {path}",
         "engine": p.get("engine", "vrt"),
-        "level_claimed": {"category": p.get("level", "model_checking"), "text": p.get("level_text", p.get("rule", "")),
+        "level_claimed": {"category": p.get("level", "model_checking"), "text": p.get("level_text", p.get("rule", "")) + ADDENDA.get(pid, ""),
                           "design_ref": "DESIGN.md section 4, " + pid},
         "level_note": "; ".join(p.get("assumptions", [])) or "see DESIGN.md section 5",
         "technique": p.get("technique", "model checking: bounded-exhaustive exploration of the real code under the vrt controlled runtime"),
